@@ -1,5 +1,6 @@
 import ShroudVerif.Model.Decl
 import ShroudVerif.Model.CxxMeaning
+import ShroudVerif.Model.Lexer
 import ShroudVerif.Gen.DeclTables
 import Driver.Codec
 /-!
@@ -102,6 +103,31 @@ def handleParseE (env : Env) (args : List String) : String :=
   | .crash e => "crash " ++ e
   | .fuel => "fuel"
   | .unmodelled w => "unmodelled " ++ w
+
+def fmtParse (env : Env) (r : Res Decl) : String :=
+  match r with
+  | .ok d => "ok " ++ serDecl d ++ " " ++ encStr (genDecl d) ++ " " ++ optTxt (genArg env false d) ++ " "
+      ++ optTxt (genArg env true d) ++ " " ++ optTxt (asCast env d) ++ " " ++ encStr (declStr d)
+  | .reject m => "reject " ++ encStr m.toList
+  | .crash e => "crash " ++ e
+  | .fuel => "fuel"
+  | .unmodelled w => "unmodelled " ++ w
+
+/-- `lex <string>` -> the tokens of the character-level tokenizer model -/
+def handleLex (args : List String) : String :=
+  match args.filter (· ≠ "") with
+  | [s] =>
+    match Shroud.Lexer.tokenize (decStr s) with
+    | .ok ts => "ok " ++ serToks ts
+    | .reject m => "reject " ++ encStr m.toList
+    | _ => "other"
+  | _ => "bad-op"
+
+/-- `parsestr <string>` -> `check_decl` on the string: tokenizer model composed with the parser model -/
+def handleParseStr (args : List String) : String :=
+  match args.filter (· ≠ "") with
+  | [s] => fmtParse env (Shroud.Lexer.checkDecl env (decStr s))
+  | _ => "bad-op"
 
 def handleParse (args : List String) : String := handleParseE env args
 /-- `parse2`: the same in the nested-namespace environment -/
